@@ -44,7 +44,9 @@ let rec times n f = if n <= 0 then [] else let x = f () in x :: times (n - 1) f
 let p_step (s : string) : op =
   toks := Array.of_list (split_sp s); pos := 0;
   match next () with
-  | "D" -> let s = p_nat () in let n = p_int () in
+  | "Db" -> let s = p_nat () in Declare (s, [])                (* bare form (struct S) *)
+  | "Dx" | "Dn" | "De" -> let s = p_nat () in DeclareBad s     (* malformed: extra argument / no array / no field *)
+  | "D" | "Dq" -> let s = p_nat () in let n = p_int () in
     Declare (s, times n (fun () -> let f = nat_of_int (num (next ())) in let t = p_texpr () in (f, t)))
   | "C" -> let id = p_nat () in let s = p_nat () in let n = p_int () in
     Construct (id, s, times n (fun () -> let k = p_key () in let v = p_value () in (k, v)))
@@ -106,7 +108,7 @@ let () =
         (match sv with
          | SOk -> Buffer.add_string so ("K:" ^ dump sst)
          | SRej r -> (match o with
-             | Declare _ -> Buffer.add_string so ("D:" ^ dump sst)   (* a failed declaration is outside the property *)
+             | Declare _ | DeclareBad _ -> Buffer.add_string so ("D:" ^ dump sst)   (* a failed declaration is outside the property *)
              | _ -> Buffer.add_string so ("E" ^ s_reason r)));
         st := st') (split_steps body);
       Printf.printf "%s\t%s\t%s\n" id (Buffer.contents mo) (Buffer.contents so)
